@@ -26,16 +26,21 @@
      spinchain_reproduces_circuit   END-TO-END, under the Section hypotheses composition_principle (ASSUMED:
                                closed form = expm, commuting exponentials, C11/C12/C14 composition) and the C13 facts
                                c13_transpile_native / c13_transpile_sem;
-     spinchain_reproduces_transpiled   the same with c13_transpile_native discharged by C13's transpile_wf_circuit: only the
+     spinchain_reproduces_transpiled   (Props/C06T.v, depends on the C13 development) the same with c13_transpile_native discharged by C13's transpile_wf_circuit: only the
                                composition principle and the semantic C13 hypothesis remain.
+     spinchain_sequential_reproduces_circuit   END-TO-END for SEQUENTIAL compilation (schedule_mode None) WITHOUT the
+                               composition hypothesis: the propagator is the ordered product over the model's slicing
+                               (seq_slices) of an abstract slice propagator P with the laws P_time, P_zero, P_idle, P_cal;
+                               ..._slices: the same for any slicing satisfying C14's slices_ok (+ P_add);
+                               slices_are_instruction_windows: the slicing lemma itself.
    NOT proved (named in TRUSTED of tools/props/c06.py): scipy expm = the closed forms; the time-ordered product of the
    slices of the concatenated table = the product of the instruction pulses; non-rectangular pulse shapes. *)
 From Coq Require Import Reals ZArith QArith String List.
 From Coquelicot Require Import Coquelicot.
 From QV Require Import Found.Base Found.KS Found.KSProofs Found.Sym Found.SymProofs Found.Circ Found.CInst
   Gen.Gates Model.SpinChainTypes Gen.SpinChain Model.Concat Model.SpinChain Spec.SpinChainSpec
-  Proofs.SpinChainCal Proofs.SpinChainRule Proofs.SpinChainSem Proofs.SpinChainC13.
-From QV Require Model.Resolve Proofs.ResolveSem Gen.Devices Model.Transpile Proofs.TranspileC06.
+  Proofs.SpinChainCal Proofs.SpinChainRule Proofs.SpinChainSem
+  Model.Fill Spec.FillSpec Proofs.SpinChainSlices Proofs.SpinChainProp Proofs.SpinChainPropEx.
 Import ListNotations.
 Local Open Scope string_scope.
 
@@ -149,36 +154,75 @@ Theorem spinchain_reproduces_circuit :
 Proof. exact SpinChainSem.spinchain_reproduces_circuit. Qed.
 Print Assumptions spinchain_reproduces_circuit.
 
-(* END-TO-END with the C13 fact c13_transpile_native DISCHARGED by C13's theorem transpile_wf_circuit
-   (Proofs/TranspileC06.v): gs is any C06 gate list carrying the names and targets of `transpile d N src` (the model of
-   ModelProcessor.transpile with the decompose-before-routing repair).  What is STILL hypothesised: the composition
-   principle, and c13_transpile_sem (C13's transpile_sem gives the semantic equality only up to a re-parameterisation of
-   the angles per transpiled gate; that bridge is not formalised).
-   Precisely: C13 denotes transpiled gate o as  gden R (env (gsrc o)) (msubst (gargs o) M_o, qubits o)  -- the atoms of its
-   SOURCE gate and argument expressions over the source parameters (the source argument copied, constants k*pi/4, theta/2
-   for the GLOBALPHASE of a PHASEGATE) -- while full_icirc/pulse_icirc here denote gate i as  gden R (env i) (M_i, targets)
-   with its own Var 0.  Discharging c13_transpile_sem needs (a) pulses_are_gates restated over instances
-   (gsrc o, msubst [e] M) / (gsrc o, msubst [subst [e] ph] closed) with one scirc_eqb check per argument expression e that a
-   decomposition rule can emit for RX/RZ, and (b) a new invariant over C13's transpile model that every output argument is
-   one of those finitely many expressions and that the numeric g_arg of the C06 gate is its value; neither exists yet. *)
-Theorem spinchain_reproduces_transpiled :
-  forall (R : PhaseRing) (env : nat -> atoms R)
-         (propagator : cfg -> option (list Q) -> list ngate -> state R -> state R)
-         (valid_schedule : cfg -> option (list Q) -> list ngate -> Prop),
-  (forall c sched gs tab ph pc,
-      load c sched gs = Ok (tab, ph) -> valid_schedule c sched gs -> pulse_icirc c gs 0 = Some pc ->
-      propagator c sched gs = sem (iden R env pc)) ->
-  forall d N src out (c : cfg) (gs : list ngate) (original_sem : state R -> state R),
-  In d Devices.devices -> Forall ResolveSem.wf_gate src -> Forall (fun g => Transpile.in_range N g = true) src ->
-  Transpile.transpile d N src = Resolve.Ok out ->
-  c_n c = N -> Forall2 TranspileC06.same_gate out gs ->
-  original_sem = sem (iden R env (full_icirc gs 0)) ->
-  forall sched tab ph,
-  setup_ok c -> load c sched gs = Ok (tab, ph) -> valid_schedule c sched gs ->
-  (forall psi, sem (iden R env (phase_icirc gs 0)) (propagator c sched gs psi) = original_sem psi) /\
+(* ---- the composition principle PROVED for sequential compilation (schedule_mode None) -------------------------------
+   P h t : the slice propagator "exp(-i t sum_m h_m H_m)" of the loop of run_analytically, ABSTRACT.  Laws used (hypotheses
+   of the statements, listed in TRUSTED as the modelled part = the matrix exponential): P_time, P_zero, P_add, P_idle and
+   P_cal (on the coefficient vector of one compiled instruction, for that instruction's duration, P is the closed-form
+   pulse unitary calibration_ok is about). *)
+
+(* any slice list that satisfies C14's predicate slices_ok (what Props/C14.v slices_are_piecewise_H proves of the loop) on a
+   grid containing the window boundaries, for channel functions that are the sequential waveform (what Props/C12.v
+   compiled_is_waveform proves of the table), has as ordered product the product of one propagator per instruction *)
+Theorem slices_are_instruction_windows : forall (St : Type) (P : list Q -> Q -> St -> St),
+  (forall h a b s, (a == b)%Q -> P h a s = P h b s) -> (forall h s, P h 0%Q s = s) ->
+  (forall h a b s, (0 <= a)%Q -> (0 <= b)%Q -> P h (a + b)%Q s = P h b (P h a s)) ->
+  (forall h t s, Forall (fun c => (c == 0)%Q) h -> P h t s = s) ->
+  forall (fs : list (Q -> Q)) ws s full sl,
+  grid_windows s ws full -> slices_ok fs full sl -> wave_is fs s ws ->
+  forall x, prop_slices St P sl x = prop_windows St P ws x.
+Proof. exact windows_prop. Qed.
+Print Assumptions slices_are_instruction_windows.
+
+(* END-TO-END for sequential compilation, NO composition hypothesis: the ordered product of the slice propagators of the
+   model's slicing of the compiled table (seq_slices: the merged grid of a sequential table is the set of window
+   boundaries), followed by the phase factors, is the original circuit.  Remaining hypotheses: P_time, P_zero, P_idle, P_cal
+   (the group law P_add is only needed for finer slicings, next theorem) and the C13 facts. *)
+Theorem spinchain_sequential_reproduces_circuit :
+  forall (R : PhaseRing) (env : nat -> atoms R) (labels : list label) (P : list Q -> Q -> state R -> state R),
+  (forall h a b s, (a == b)%Q -> P h a s = P h b s) -> (forall h s, P h 0%Q s = s) ->
+  (forall h t s, Forall (fun c => (c == 0)%Q) h -> P h t s = s) ->
+  forall (c : cfg) (gs : list ngate),
+  (* P_cal *)
+  (forall i g d lb co sp s, nth_error gs i = Some g -> compile_gate c g = Ok (CInstr d [(lb, co)]) ->
+     pulse_sgate c (g_name g) lb = Some sp -> P (ivec labels [(lb, co)]) d s = sem [gden R (env i) sp] s) ->
+  forall (original_sem : state R -> state R),
+  wf_circuit c gs -> original_sem = sem (iden R env (full_icirc gs 0)) ->
+  forall il ph, setup_ok c -> compile_gates c gs 0%Q = Ok (il, ph) -> Forall (fun i => (0 <= fst i)%Q) il ->
+  (forall psi, sem (iden R env (phase_icirc gs 0)) (prop_slices (state R) P (seq_slices labels il) psi) = original_sem psi) /\
   (ph == sum_phase gs)%Q.
-Proof. exact reproduces_transpiled. Qed.
-Print Assumptions spinchain_reproduces_transpiled.
+Proof. exact sequential_run_reproduces_circuit. Qed.
+Print Assumptions spinchain_sequential_reproduces_circuit.
+
+(* the same for ANY slicing accepted by C14's predicate (interface form) *)
+Theorem spinchain_sequential_reproduces_circuit_slices :
+  forall (R : PhaseRing) (env : nat -> atoms R) (labels : list label) (P : list Q -> Q -> state R -> state R),
+  (forall h a b s, (a == b)%Q -> P h a s = P h b s) -> (forall h s, P h 0%Q s = s) ->
+  (forall h a b s, (0 <= a)%Q -> (0 <= b)%Q -> P h (a + b)%Q s = P h b (P h a s)) ->
+  (forall h t s, Forall (fun c => (c == 0)%Q) h -> P h t s = s) ->
+  forall (c : cfg) (gs : list ngate),
+  (forall i g d lb co sp s, nth_error gs i = Some g -> compile_gate c g = Ok (CInstr d [(lb, co)]) ->
+     pulse_sgate c (g_name g) lb = Some sp -> P (ivec labels [(lb, co)]) d s = sem [gden R (env i) sp] s) ->
+  forall (fs : list (Q -> Q)) (original_sem : state R -> state R),
+  wf_circuit c gs -> original_sem = sem (iden R env (full_icirc gs 0)) ->
+  forall il ph full sl, setup_ok c -> compile_gates c gs 0%Q = Ok (il, ph) ->
+  grid_windows 0%Q (windows_of labels il) full -> slices_ok fs full sl -> wave_is fs 0%Q (windows_of labels il) ->
+  (forall psi, sem (iden R env (phase_icirc gs 0)) (prop_slices (state R) P sl psi) = original_sem psi) /\
+  (ph == sum_phase gs)%Q.
+Proof. exact sequential_reproduces_circuit. Qed.
+Print Assumptions spinchain_sequential_reproduces_circuit_slices.
+
+(* the hypotheses are satisfiable: a non-trivial commuting model of the four group laws; the interface hypotheses on a
+   concrete two-instruction table; all hypotheses together incl. P_cal for an arbitrary circuit (degenerate ring) *)
+Example propagator_laws_have_a_model :
+  (forall h a b s, (a == b)%Q -> Ptoy h a s = Ptoy h b s) /\ (forall h s, Ptoy h 0%Q s = s) /\
+  (forall h a b s, (0 <= a)%Q -> (0 <= b)%Q -> Ptoy h (a + b)%Q s = Ptoy h b (Ptoy h a s)) /\
+  (forall h t s, Forall (fun c => (c == 0)%Q) h -> Ptoy h t s = s) /\
+  Ptoy [1#2; 1#4]%Q 2%Q (Qcanon.Q2Qc 1) <> Qcanon.Q2Qc 1.
+Proof. exact toy_laws. Qed.
+Example slicing_interface_inhabited :
+  grid_windows 0%Q (windows_of ex_labels ex_il) ex_full /\ slices_ok ex_fs ex_full ex_sl /\
+  wave_is ex_fs 0%Q (windows_of ex_labels ex_il).
+Proof. exact interface_inhabited. Qed.
 
 (* ---- non-vacuity ---- *)
 Example pulse_gates_are : pulse_gates = ["ISWAP"; "RX"; "RZ"; "SQRTISWAP"].
